@@ -1328,6 +1328,8 @@ struct xml_ctx {
     unsigned depth;
     uint64_t callbacks;
     bool runaway;
+    size_t eff_max_depth; /* options.max_depth, or the documented default of 20 when 0 */
+    bool depth_reported;
 };
 
 static int xml_cb(struct aws_xml_node *node, void *ud) {
@@ -1343,6 +1345,13 @@ static int xml_cb(struct aws_xml_node *node, void *ud) {
                           s_in_len, in_hex());
         }
         return aws_raise_error(AWS_ERROR_INVALID_STATE);
+    }
+    /* nesting limit: traverse is refused once max_depth frames are open, so a callback can be nested at most max_depth + 1
+     * deep whatever the document looks like (the limit is what bounds the recursion through traverse and the callback) */
+    if (c->depth + 1 > c->eff_max_depth + 1 && !c->depth_reported) {
+        c->depth_reported = true;
+        mon_violation("C04:xml:depth-limit-bypassed", "callback nested %u deep with max_depth %zu (limit allows %zu); input=%s", c->depth + 1, c->eff_max_depth,
+                      c->eff_max_depth + 1, in_hex());
     }
     uint8_t op = c->plen ? c->prog[c->pc++ % c->plen] : 0;
     chk_view("node name", aws_xml_node_get_name(node));
@@ -1421,6 +1430,7 @@ static void run_xml(const uint8_t *raw, size_t rawlen, struct mon_rng *r) {
     opt.doc.ptr = (uint8_t *)in.ptr;
     opt.doc.len = in.len;
     opt.max_depth = depth_tbl[md & 15];
+    c.eff_max_depth = opt.max_depth ? opt.max_depth : 20;
     opt.on_root_encountered = xml_cb;
     opt.user_data = &c;
     aws_reset_error();
